@@ -39,6 +39,9 @@ type c22xCase struct {
 	// Rename: instead of WRITE B, the file is renamed away (s0 -> s1) and a new s0 is created while A is parked; the
 	// bytes A is acknowledged for must be durable in whichever file holds them
 	Rename bool `json:"rename,omitempty"`
+	// Shrink > 0: while A is parked, UpdateTuningOptions lowers TransferSize to this many bytes (the server may then
+	// write less than A asked for; what A's reply acknowledges is what has to be durable)
+	Shrink int `json:"shrink,omitempty"`
 }
 
 func genC22x(t *rapid.T) c22xCase {
@@ -46,7 +49,8 @@ func genC22x(t *rapid.T) c22xCase {
 		return c22xW{Off: pick(t, l+"off", 0, 1, 100, 4096, 5000, rapid.IntRange(0, 9000).Draw(t, l+"roff")), Len: pick(t, l+"len", 1, 7, 100, 4096, 5000),
 			Stable: pick(t, l+"stable", uint32(nfsx.Unstable), nfsx.DataSync, nfsx.FileSync, nfsx.FileSync)}
 	}
-	return c22xCase{Base: pick(t, "base", 0, 1, 4096, 10000), A: w("a"), B: w("b"), ParkAt: rapid.IntRange(1, 8).Draw(t, "park"), After: rapid.Bool().Draw(t, "after"), Commit: rapid.IntRange(0, 2).Draw(t, "commit") == 0, Async: rapid.IntRange(0, 3).Draw(t, "async") == 0, Rename: rapid.IntRange(0, 3).Draw(t, "rename") == 0}
+	return c22xCase{Base: pick(t, "base", 0, 1, 4096, 10000), A: w("a"), B: w("b"), ParkAt: rapid.IntRange(1, 8).Draw(t, "park"), After: rapid.Bool().Draw(t, "after"), Commit: rapid.IntRange(0, 2).Draw(t, "commit") == 0, Async: rapid.IntRange(0, 3).Draw(t, "async") == 0, Rename: rapid.IntRange(0, 3).Draw(t, "rename") == 0,
+		Shrink: pick(t, "shrink", 0, 0, 0, 1, 64, 4096)}
 }
 
 func runC22x(tb stat.TB, c c22xCase) {
@@ -123,6 +127,22 @@ func runC22x(tb stat.TB, c c22xCase) {
 		case <-time.After(10 * time.Second):
 			release()
 			tb.Fatalf("harness: WRITE A neither parked nor returned")
+		}
+		if c.Shrink > 0 && parkedOK {
+			ud := make(chan struct{})
+			go func() {
+				defer close(ud)
+				s.e.NFS.UpdateTuningOptions(func(t *absnfs.TuningOptions) { t.TransferSize = c.Shrink })
+			}()
+			select {
+			case <-ud:
+				stat.Label("transfer_size_lowered_under_parked_write", 1)
+			case <-time.After(300 * time.Millisecond):
+				// an implementation may make the update wait for requests in flight
+				bWaited = true
+				release()
+				<-ud
+			}
 		}
 		if c.Rename {
 			// the namespace changes under the parked write
